@@ -105,11 +105,13 @@ def check(repo, run, tier):
     g(unitrules.child_kwargs_table, repo, run, 'C04.R2')
     g(unitrules.getter_table, repo, run, 'C04.R2')
     g(unitrules.first_not_missing_table, repo, run, 'C04.R11')
+    g(unitrules.propagate_implicit_table, repo, run, 'C04.R2', ('delete',))
     g.done()
 
 
 def mutants(repo):
     return [
+        Mutant('explicit-merge-overwritten-by-inherited-delete', lambda r: in_func(r, 'ComposedNode._propagate_implicit_values', "            if self._delete is None:", "            if not self._delete:"), ['C04.R2']),
         Mutant('falsy-counterpart-counts-as-missing', lambda r: in_func(r, 'ComposedNode.ayns.get_first_not_missing_node', "            if _get_node(nodes[-1]) is not None:", "            if _get_node(nodes[-1]):"), ['C04.R11']),
         Mutant('explicit-delete-getter', lambda r: in_func(r, 'ConfigNode.ayns.explicit_delete', "return self._delete", "return None"), ['C04.R2']),
         Mutant('list-children-lose-default-delete', lambda r: in_func(r, 'ComposedNode._get_child_kwargs', "self._default_delete or self._implicit_delete", "self._implicit_delete"), ['C04.R2']),
